@@ -13,23 +13,25 @@ Lemma calc_unfold t1 v1 t2 v2 :
   calculate_frequency_p0f_style (ts_now v2 t2) (ts_now v1 t1) =
   let ms := Z.max 0 (t2 - t1) in
   let d := advance v1 v2 in
-  if ms <? 25 then None else if 600000 <? ms then None else
+  if ms <? 25 then FreqErr else if 600000 <? ms then FreqErr else
   if negb (if 4294967295 - d <? d
            then if 4294967295 - d <? 5 then false
                 else if (ms <? 100) && (15000 <? 4294967295 - d) then false else true
-           else negb (d <? 5)) then None
+           else true) then FreqErr
   else
     let raw := if 4294967295 - d <? d then {| qn := - ((4294967295 - d) * 1000); qd := Z.max ms 1 |}
                else {| qn := d * 1000; qd := Z.max ms 1 |} in
-    if (1 * qd raw <=? qn raw * 1) && (qn raw * 1 <=? 1500 * qd raw) then Some raw else None.
+    if negb ((1 * qd raw <=? qn raw * 1) && (qn raw * 1 <=? 1500 * qd raw)) then FreqErr
+    else if d <? 5 then FreqWait else FreqOk raw.
 Proof. reflexivity. Qed.
 
-Lemma calc_in_bounds t1 v1 t2 v2 :
-  in_bounds t1 v1 t2 v2 = true -> 5 <= advance v1 v2 ->
+(* in bounds: the guards pass, the rate check passes; what is left is the tick count *)
+Lemma calc_in_bounds_gen t1 v1 t2 v2 :
+  in_bounds t1 v1 t2 v2 = true ->
   calculate_frequency_p0f_style (ts_now v2 t2) (ts_now v1 t1)
-  = Some {| qn := advance v1 v2 * 1000; qd := t2 - t1 |}.
+  = if advance v1 v2 <? 5 then FreqWait else FreqOk {| qn := advance v1 v2 * 1000; qd := t2 - t1 |}.
 Proof.
-  intros Hb H5. rewrite calc_unfold. unfold in_bounds in Hb. cbv zeta.
+  intros Hb. rewrite calc_unfold. unfold in_bounds in Hb. cbv zeta.
   pose proof (advance_range v1 v2) as Hr.
   set (d := advance v1 v2) in *. set (ms := t2 - t1) in *. unfold TWO31 in Hb.
   destruct (Z.leb_spec 25 ms); cbn [andb] in Hb; [|discriminate].
@@ -39,28 +41,32 @@ Proof.
   destruct (Z.leb_spec (1000 * d) (1500 * ms)); [|discriminate].
   rewrite (Z.max_r 0 ms) by lia. rewrite (Z.max_l ms 1) by lia.
   destruct (Z.ltb_spec ms 25); [lia|]. destruct (Z.ltb_spec 600000 ms); [lia|].
-  destruct (Z.ltb_spec (4294967295 - d) d); [lia|].
-  destruct (Z.ltb_spec d 5); [lia|]. cbn [negb qn qd].
+  destruct (Z.ltb_spec (4294967295 - d) d); [lia|]. cbn [negb qn qd].
   destruct (Z.leb_spec (1 * ms) (d * 1000 * 1)); [|lia].
   destruct (Z.leb_spec (d * 1000 * 1) (1500 * ms)); [|lia]. reflexivity.
 Qed.
 
+Lemma calc_in_bounds t1 v1 t2 v2 :
+  in_bounds t1 v1 t2 v2 = true -> 5 <= advance v1 v2 ->
+  calculate_frequency_p0f_style (ts_now v2 t2) (ts_now v1 t1)
+  = FreqOk {| qn := advance v1 v2 * 1000; qd := t2 - t1 |}.
+Proof.
+  intros Hb H5. rewrite calc_in_bounds_gen by assumption.
+  destruct (Z.ltb_spec (advance v1 v2) 5); [lia | reflexivity].
+Qed.
+
+(* fewer than 5 ticks at an in-bounds interval and rate: keep waiting (no report, no marker) *)
 Lemma calc_small_advance t1 v1 t2 v2 :
   in_bounds t1 v1 t2 v2 = true -> advance v1 v2 < 5 ->
-  calculate_frequency_p0f_style (ts_now v2 t2) (ts_now v1 t1) = None.
+  calculate_frequency_p0f_style (ts_now v2 t2) (ts_now v1 t1) = FreqWait.
 Proof.
-  intros Hb H5. rewrite calc_unfold. cbv zeta.
-  pose proof (advance_range v1 v2) as Hr.
-  set (d := advance v1 v2) in *.
-  destruct (Z.ltb_spec (Z.max 0 (t2 - t1)) 25); [reflexivity|].
-  destruct (Z.ltb_spec 600000 (Z.max 0 (t2 - t1))); [reflexivity|].
-  destruct (Z.ltb_spec (4294967295 - d) d); [lia|].
-  destruct (Z.ltb_spec d 5); [reflexivity|lia].
+  intros Hb H5. rewrite calc_in_bounds_gen by assumption.
+  destruct (Z.ltb_spec (advance v1 v2) 5); [reflexivity | lia].
 Qed.
 
 Lemma calc_out_of_bounds t1 v1 t2 v2 :
   in_bounds t1 v1 t2 v2 = false ->
-  calculate_frequency_p0f_style (ts_now v2 t2) (ts_now v1 t1) = None.
+  calculate_frequency_p0f_style (ts_now v2 t2) (ts_now v1 t1) = FreqErr.
 Proof.
   intros Hb. rewrite calc_unfold. unfold in_bounds in Hb. cbv zeta.
   pose proof (advance_range v1 v2) as Hr.
@@ -69,14 +75,14 @@ Proof.
   destruct (Z.ltb_spec 600000 (Z.max 0 ms)); [reflexivity|].
   rewrite (Z.max_r 0 ms) in * by lia. rewrite (Z.max_l ms 1) by lia.
   destruct (Z.leb_spec 25 ms); [|lia]. destruct (Z.leb_spec ms 600000); [|lia]. cbn [andb] in Hb.
-  destruct (negb _); [reflexivity|].
+  destruct (negb (if 4294967295 - d <? d then _ else true)); [reflexivity|].
   destruct (Z.ltb_spec (4294967295 - d) d) as [Hbk|Hfw]; cbn [qn qd].
   - (* backward: the rate is negative *)
     destruct (Z.leb_spec (1 * ms) (- ((4294967295 - d) * 1000) * 1)); [lia | reflexivity].
   - (* forward *)
     destruct (Z.ltb_spec d 2147483648); [|lia]. cbn [andb] in Hb.
-    destruct (Z.leb_spec ms (1000 * d)); destruct (Z.leb_spec (1 * ms) (d * 1000 * 1)); try lia; cbn [andb] in *; try reflexivity.
-    destruct (Z.leb_spec (1000 * d) (1500 * ms)); destruct (Z.leb_spec (d * 1000 * 1) (1500 * ms)); try lia; try reflexivity; discriminate.
+    destruct (Z.leb_spec ms (1000 * d)); destruct (Z.leb_spec (1 * ms) (d * 1000 * 1)); try lia; cbn [andb negb] in *; try reflexivity.
+    destruct (Z.leb_spec (1000 * d) (1500 * ms)); destruct (Z.leb_spec (d * 1000 * 1) (1500 * ms)); try lia; cbn [negb]; try reflexivity; discriminate.
 Qed.
 
 (* ------------------------------------------------------------------ frequency *)
@@ -147,14 +153,18 @@ Proof.
          end. lia.
 Qed.
 
-Theorem estimate_model_spec t1 v1 t2 v2 :
+(* the three-valued evaluation against the SPEC: report / marker, never "wait" outside the known class *)
+Definition eval_of_spec (o : option uptime) : eval_result :=
+  match o with Some u => EvEst u | None => EvBad end.
+
+Theorem eval_model_spec t1 v1 t2 v2 :
   wf_obs t1 v1 -> wf_obs t2 v2 ->
   known_pair t1 v1 t2 v2 = false ->
-  model_estimate t1 v1 t2 v2 = spec_estimate t1 v1 t2 v2.
+  model_eval t1 v1 t2 v2 = eval_of_spec (spec_estimate t1 v1 t2 v2).
 Proof.
   intros [Ht1 Hv1] [Ht2 Hv2] Hk. unfold known_pair in Hk.
   rename Hk into Hsm.
-  unfold model_estimate, spec_estimate.
+  unfold model_eval, spec_estimate.
   destruct (in_bounds t1 v1 t2 v2) eqn:Hb.
   - unfold known_small_advance in Hsm. rewrite Hb in Hsm. cbn [andb] in Hsm. apply Z.ltb_ge in Hsm.
     rewrite calc_in_bounds by assumption.
@@ -163,6 +173,23 @@ Proof.
     rewrite final_grid by lia.
     rewrite uptime_model_spec; [reflexivity | lia | apply grid_pos; lia].
   - rewrite calc_out_of_bounds by assumption. reflexivity.
+Qed.
+
+Theorem estimate_model_spec t1 v1 t2 v2 :
+  wf_obs t1 v1 -> wf_obs t2 v2 ->
+  known_pair t1 v1 t2 v2 = false ->
+  model_estimate t1 v1 t2 v2 = spec_estimate t1 v1 t2 v2.
+Proof.
+  intros W1 W2 Hk. unfold model_estimate. rewrite eval_model_spec by assumption.
+  now destruct (spec_estimate t1 v1 t2 v2).
+Qed.
+
+(* the known class, exactly: in bounds on fewer than 5 ticks the code keeps waiting *)
+Theorem eval_small_advance t1 v1 t2 v2 :
+  known_small_advance t1 v1 t2 v2 = true -> model_eval t1 v1 t2 v2 = EvWait.
+Proof.
+  unfold known_small_advance. intros H. apply andb_prop in H. destruct H as [Hb H5]. apply Z.ltb_lt in H5.
+  unfold model_eval. now rewrite calc_small_advance.
 Qed.
 
 Theorem estimate_sound t1 v1 t2 v2 :
@@ -188,9 +215,9 @@ Qed.
 
 Theorem estimate_withheld t1 v1 t2 v2 :
   in_bounds t1 v1 t2 v2 = false ->
-  model_estimate t1 v1 t2 v2 = None /\ spec_estimate t1 v1 t2 v2 = None.
+  model_eval t1 v1 t2 v2 = EvBad /\ model_estimate t1 v1 t2 v2 = None /\ spec_estimate t1 v1 t2 v2 = None.
 Proof.
-  intros Hb. unfold model_estimate, spec_estimate.
+  intros Hb. unfold model_estimate, model_eval, spec_estimate.
   rewrite calc_out_of_bounds by assumption. now rewrite Hb.
 Qed.
 
@@ -198,8 +225,8 @@ Qed.
 
 Lemma Known_small_advance_refuted :
   exists t1 v1 t2 v2, wf_obs t1 v1 /\ wf_obs t2 v2 /\ known_small_advance t1 v1 t2 v2 = true /\
-                      model_estimate t1 v1 t2 v2 <> spec_estimate t1 v1 t2 v2.
-Proof. exists 0, 1000, 1000, 1004. unfold wf_obs. repeat split; try lia. vm_compute. discriminate. Qed.
+                      model_estimate t1 v1 t2 v2 <> spec_estimate t1 v1 t2 v2 /\ model_eval t1 v1 t2 v2 = EvWait.
+Proof. exists 0, 1000, 1000, 1004. unfold wf_obs. repeat split; try lia; vm_compute; (discriminate || reflexivity). Qed.
 
 (* former known class "backward movement reported" (repaired in /repo): the old witnesses now agree *)
 Lemma Known_backward_former_witness_agrees :
